@@ -219,7 +219,7 @@ def post_conditions(em, rng, pool_bool, pool_num, viol, res):
         n = em.Minus(a, c)
         chk(n.node_type == OK.MINUS and n.arg(0) is a and n.arg(1) is c, "post:Minus-args", f"Minus({a},{c}) = {n}")
     # numeric literals
-    lit = rng.choice([0, 1, -7, 2**60 + 1, 0.5, 0.1, -2.75, 3.0, Fraction(1, 3), Fraction(6, 3), Fraction(-10**30, 7), "12", "0.1", "-3/4", "1e3" if False else "7"])
+    lit = rng.choice([0, 1, -7, 2**60 + 1, 0.5, 0.1, -2.75, 3.0, Fraction(1, 3), Fraction(6, 3), Fraction(-10**30, 7), "12", "0.1", "-3/4", "7", "2.0", "-4.00", "1e2", "6/3", "0.50", "-0", "10/4"])
     (n,) = em.auto_promote(lit)
     if isinstance(lit, str):
         exact = Fraction(lit)
@@ -229,8 +229,50 @@ def post_conditions(em, rng, pool_bool, pool_num, viol, res):
         chk(n.is_int_constant() and n.constant_value() == exact.numerator and n is em.Int(exact.numerator), "post:literal-int", f"auto_promote({lit!r}) = {n} ({n.node_type.name})")
     else:
         chk(n.is_real_constant() and n.constant_value() == exact and n is em.Real(exact), "post:literal-real", f"auto_promote({lit!r}) = {n} ({n.node_type.name}), exact value {exact}")
+    # the same literal given in another spelling is the same node, also inside an operator
+    other = exact.numerator if exact.denominator == 1 else exact
+    chk(em.Minus(a, lit) is em.Minus(a, other), "post:literal-spelling-inside-operator", f"Minus({a}, {lit!r}) is not Minus({a}, {other!r})")
     b = rng.random() < 0.5
     chk(em.Bool(b) is (em.TRUE() if b else em.FALSE()) and em.auto_promote(b)[0] is em.Bool(b), "post:Bool", f"Bool({b})")
+
+
+def twin_fluents(env, rng, viol, res):
+    """Structurally different fluents that share a name (and a hash, when the library's hash ignores parameter order / the
+    value-type vs parameter-type split) must give distinct expression nodes carrying their own payload."""
+    from collections import OrderedDict
+    from unified_planning.model import Fluent, Object
+
+    tm, em = env.type_manager, env.expression_manager
+    root = tm.UserType("TwinRoot")
+    leaf = tm.UserType("TwinLeaf", root)
+    l1, l2 = Object("twin_l1", leaf, env), Object("twin_l2", leaf, env)
+    fams = [
+        (Fluent("twin_in", tm.BoolType(), OrderedDict([("what", root), ("where", leaf)]), env), Fluent("twin_in", tm.BoolType(), OrderedDict([("what", leaf), ("where", root)]), env), (l1, l2)),
+        (Fluent("twin_in", tm.BoolType(), OrderedDict([("what", root), ("where", leaf)]), env), Fluent("twin_in", tm.BoolType(), OrderedDict([("where", leaf), ("what", root)]), env), (l1, l2)),
+        (Fluent("twin_holder", root, OrderedDict([("of", leaf)]), env), Fluent("twin_holder", leaf, OrderedDict([("of", root)]), env), (l1,)),
+        (Fluent("twin_n", tm.IntType(0, 3), OrderedDict([("of", leaf)]), env), Fluent("twin_n", tm.IntType(0, 4), OrderedDict([("of", leaf)]), env), (l2,)),
+        (Fluent("twin_r", tm.RealType(), OrderedDict(), env), Fluent("twin_r", tm.IntType(), OrderedDict(), env), ()),
+    ]
+    for f1, f2, args in fams:
+        pair = [f1, f2]
+        if rng.random() < 0.5:
+            pair.reverse()
+        nodes = [em.FluentExp(f, tuple(em.ObjectExp(a) for a in args)) for f in pair]
+        again = [em.FluentExp(f, tuple(em.ObjectExp(a) for a in args)) for f in reversed(pair)][::-1]
+        res.mon()
+        res.count("twin_fluent_pairs")
+        if f1 == f2:
+            continue  # the library considers them the same fluent: nothing to demand
+        if nodes[0] is nodes[1] or nodes[0].node_id == nodes[1].node_id:
+            viol("different-fluents-same-node", f"fluent expressions of two different fluents named {f1.name} ({pair[0]!r} / {pair[1]!r}) are one node")
+            continue
+        for f, n, n2 in zip(pair, nodes, again):
+            if n.fluent() is not f and n.fluent() != f:
+                viol("fluent-expression-carries-wrong-fluent", f"FluentExp({f!r}) carries {n.fluent()!r}")
+            if n.type != f.type:
+                viol("fluent-expression-wrong-type", f"FluentExp({f!r}) has type {n.type}")
+            if n2 is not n:
+                viol("same-expression-different-node", f"building FluentExp({f!r}) twice gave different nodes")
 
 
 def run_case(key, tier, res):
@@ -321,6 +363,7 @@ def run_case(key, tier, res):
                     post_conditions(envA.expression_manager, rng, pb_, pn_, viol, res)
                 except (UPException, ZeroDivisionError):
                     res.count("postcondition_args_rejected")
+        twin_fluents(envA, rng, viol, res)
         mon.checkpoint()
         for eid, sh in mon.shadow.items():
             ids = [n.node_id for n in sh.values()]
@@ -339,7 +382,7 @@ def run_case(key, tier, res):
 def thresholds(m):
     c = m["counters"]
     out = []
-    for k, n in (("create_node_events", 5000), ("repeated_keys", 500), ("postconditions", 500), ("ill_typed_constructions", 100)):
+    for k, n in (("create_node_events", 5000), ("repeated_keys", 500), ("postconditions", 500), ("ill_typed_constructions", 100), ("twin_fluent_pairs", 100)):
         if c.get(k, 0) < n:
             out.append(f"{k} observed {c.get(k, 0)} < {n}")
     return out
